@@ -83,7 +83,9 @@ type gen struct {
 func (g *gen) thorough() bool { return g.tier == "thorough" }
 
 func (g *gen) concurrentStrategy() StratSpec {
-	switch g.k.Intn(7) {
+	switch g.k.Intn(8) {
+	case 7:
+		return StratSpec{Name: "duel", Den: []int{12, 30, 60}[g.k.Intn(3)]}
 	case 6:
 		return StratSpec{Name: "pctw", D: 2 + g.k.Intn(2)}
 	case 0:
